@@ -64,8 +64,10 @@ def gen_case(src, depth=3):
     direct = src.bool(0.5)
     cands = [i for i, x in enumerate(values) if IG.multi_keys(x["v"])]
     multi = src.choice(cands) if cands and src.bool(0.85) else None
-    return {"tree": tree, "direct": direct, "values": values, "multi": multi,
-            "xml": IG.model_xml(tree, [x["v"] for x in values], direct, multi)}
+    # white space around the names inside <typeRef> elements (as XML pretty-printers write them) belongs to the markup, not to the name
+    pad = src.weighted([(6, 0), (2, 1), (2, 2)])
+    return {"tree": tree, "direct": direct, "values": values, "multi": multi, "pad": pad,
+            "xml": IG.model_xml(tree, [x["v"] for x in values], direct, multi, pad)}
 
 
 def gen_depth(d):
